@@ -116,6 +116,15 @@ func c08compare(x *mc.X, who string, l rlimit.RLimits, rep *report, own [][2]uin
 	return desc
 }
 
+func c08nrOpen() uint64 {
+	b, _ := os.ReadFile("/proc/sys/fs/nr_open")
+	n, _ := strconv.ParseUint(strings.TrimSpace(string(b)), 10, 64)
+	if n == 0 {
+		n = 1 << 20
+	}
+	return n
+}
+
 func c08pickLimits(x *mc.X, full bool) rlimit.RLimits {
 	var l rlimit.RLimits
 	pick := func(name string) uint64 {
@@ -142,6 +151,12 @@ func c08pickLimits(x *mc.X, full bool) rlimit.RLimits {
 	l.AddressSpace = pick("as")
 	l.OpenFile = pick("nofile")
 	l.DisableCore = x.Bool("nocore")
+	// an entry the kernel refuses whoever asks (an open-file limit above fs.nr_open), at a place in the list that is not
+	// the last whenever another limit follows it: the launch is refused — or the value is in force; never a program that
+	// runs under some other value
+	if x.Bool("open-file-limit-above-nr_open") {
+		l.OpenFile = c08nrOpen() + 1
+	}
 	return l
 }
 
@@ -149,7 +164,7 @@ func init() {
 	registry["C08"] = func(tier string) *mc.Spec {
 		spec := &mc.Spec{
 			Level: "exploration",
-			Rule: "family 0: limit records (every zero/non-zero pattern of the 7 fields; thorough: every field over {0, small, >2^32}; CPUHard below/equal/above CPU) → PrepareRLimit → real launch → getrlimit in the program; " +
+			Rule: "family 0: limit records (every zero/non-zero pattern of the 7 fields; thorough: every field over {0, small, >2^32}; CPUHard below/equal/above CPU; the open-file limit also above fs.nr_open, which the kernel refuses: refused launch or value in force) → PrepareRLimit → real launch → getrlimit in the program; " +
 				"family 1: the same through container.Execve as two-run histories on one container (limits A then limits B) and through the ptrace and namespace runners; " +
 				"family 2: programs that exceed RLIMIT_CPU, RLIMIT_FSIZE, the runner's time bound and memory bound under each runner → verdict and measurements; " +
 				"family 3: output collector, cap N × volume × writer chunk size × sink (the package's buffer, or a caller's writer that fails at once / after 10 / after 4096 bytes). non-trivial: at least one limit configured / volume>0; distinct = (family, configuration, observation)",
